@@ -15,7 +15,14 @@ notes = {
  "fn": "Class-exhaustive over the abstract domain of the specification; bytes inside a class are seeded samples. The harness's independent client parser is the reference for well-formedness.",
 }
 claimed = {}
+EXPL = ("Specification-driven exploration: the adversarial input class product of DESIGN.md (C14) is run against the real server in a real process over real sockets, "
+        "with a tracking allocator and a panic hook; TLC validates every recorded execution against the resource judge (specs/judge/AbsRes.tla). Class coverage with seeded "
+        "bytes inside each class; not byte-level exhaustive, and there is no mechanism model to check, hence 'exploration'.")
 for p in props.PROPS:
+    if props.LEVEL.get(p) == "exploration":
+        claimed[p] = ("exploration", EXPL, "A dying process is data (the victim scenario is identified and judged). Allocation bound: largest single allocation <= 1 MiB + 64 x bytes received.",
+                      "TLA+ judge (TLC trace validation) over a specification-driven adversarial class product on the real process")
+        continue
     claimed[p] = ("model_checking", SCHED, notes["model"], "TLA+ model checking (TLC) of a mechanism spec + TLC trace validation of executions of the real code under a controllable scheduler")
 for p in props.FN_PROPS:
     claimed[p] = ("model_checking", FN, notes["fn"], "TLA+ (TLC) exhaustive enumeration of the abstract case product + TLC-judged conformance of the real code on every case")
